@@ -141,7 +141,8 @@ def ob_dict(ob, ex=None):
                                 pass
             except Exception as e:   # model extraction is best effort
                 d['inputs_error'] = repr(e)
-    return d
+    import json
+    return json.loads(json.dumps(d, default=repr))
 
 
 def custom_result(name, file, func, gen, instance=None):
